@@ -104,11 +104,28 @@ def run(ctx):
     f = p.get_function(FPI)
     loops = [n for n in own_walk(f.node) if isinstance(n, ast.For)]
     main = [lp for lp in loops if lp.orelse]
+    flag = None
+    els = None
+    if len(main) == 1:
+        els = main[0].orelse
+    else:
+        # the same loop written with a completion flag: `while not <done> and <count> < budget: ...` followed by `if not <done>:`
+        for wl in [n for n in own_walk(f.node) if isinstance(n, ast.While) and not n.orelse]:
+            conj = wl.test.values if isinstance(wl.test, ast.BoolOp) and isinstance(wl.test.op, ast.And) else [wl.test]
+            fl = [c.operand.id for c in conj if isinstance(c, ast.UnaryOp) and isinstance(c.op, ast.Not) and isinstance(c.operand, ast.Name)]
+            if len(fl) != 1:
+                continue
+            body_of = [b for n in ast.walk(f.node) for b in (getattr(n, "body", None), getattr(n, "orelse", None))
+                       if isinstance(b, list) and wl in b]
+            after = body_of[0][body_of[0].index(wl) + 1:] if body_of else []
+            exh = [n for n in after if isinstance(n, ast.If) and ast.unparse(n.test) == f"not {fl[0]}" and not n.orelse]
+            if len(exh) == 1:
+                main, flag, els = [wl], fl[0], exh[0].body
     if len(main) != 1:
-        ctx.unsure("R10.2", "fixed_point_iteration", "iteration loop with an else clause not found", f.loc())
+        ctx.unsure("R10.2", "fixed_point_iteration", "iteration loop with its exhaustion branch (for/else, or while-not-done followed by "
+                   "`if not done`) not found", f.loc())
     else:
         lp = main[0]
-        els = lp.orelse
         rets = [n for n in own_walk(f.node) if isinstance(n, ast.Return) and n.value is not None]
         # the array that receives the NaN marks on exhaustion, and the mask that selects them: `<result>[~<mask>] = nan`
         nan_stores = [n for st in els for n in ast.walk(st) if isinstance(n, ast.Assign)
@@ -118,8 +135,14 @@ def run(ctx):
         mask = nan_stores[0].targets[0].slice.operand.id if len(nan_stores) == 1 else None
         err_ifs = [n for st in els for n in ast.walk(st) if isinstance(n, ast.If) and "error_if_not_converged" in ast.unparse(n.test)]
         raises = [n for st in els for n in ast.walk(st) if isinstance(n, ast.Raise)]
+        def after_raising_if(store):
+            # `if flag: raise ...` followed by the store in the same block is the else branch spelled as fall-through
+            if not err_ifs or err_ifs[0] not in els or err_ifs[0].orelse or not isinstance(err_ifs[0].body[-1], ast.Raise):
+                return False
+            return any(store in list(ast.walk(st)) for st in els[els.index(err_ifs[0]) + 1:]
+                       if not isinstance(st, (ast.If, ast.For, ast.While, ast.Try)))
         ok_else = len(err_ifs) == 1 and any(r_ in [x for b in err_ifs[0].body for x in ast.walk(b)] for r_ in raises) \
-            and any(s_ in [x for b in err_ifs[0].orelse for x in ast.walk(b)] for s_ in nan_stores)
+            and any(s_ in [x for b in err_ifs[0].orelse for x in ast.walk(b)] or after_raising_if(s_) for s_ in nan_stores)
         ctx.expect(ok_else, "R10.2", "fixed_point_iteration[exhaustion]",
                    "when the iteration budget is exhausted the non-converged elements become NaN, unless the error flag is set "
                    "(then it raises)", f.loc(els[0]) if els else f.loc())
@@ -135,13 +158,34 @@ def run(ctx):
         it3 = Interp(p)
         res_list = rets[-1].value.value.id if rets and isinstance(rets[-1].value, ast.Subscript) and isinstance(
             rets[-1].value.value, ast.Name) else None
-        if len(conv) == 1 and res_list is not None:
+        # ... or the iterates are kept in scalars shifted by one tuple assignment `a, b, c = b, c, new`: the returned name is the
+        # newest iterate, the name that receives its old value is the previous one
+        res_name = rets[-1].value.id if rets and isinstance(rets[-1].value, ast.Name) else None
+        shift = {}
+        if res_name is not None:
+            for n in ast.walk(lp):
+                if isinstance(n, ast.Assign) and isinstance(n.targets[0], ast.Tuple) and isinstance(n.value, ast.Tuple) \
+                        and len(n.targets[0].elts) == len(n.value.elts) and any(
+                            isinstance(t, ast.Name) and t.id == res_name for t in n.targets[0].elts):
+                    for t, v_ in zip(n.targets[0].elts, n.value.elts):
+                        if isinstance(t, ast.Name) and isinstance(v_, ast.Name):
+                            shift[t.id] = v_.id
+        prev_name = next((t for t, v_ in shift.items() if v_ == res_name), None)
+        prev2_name = next((t for t, v_ in shift.items() if v_ == prev_name), None) if prev_name else None
+        if len(conv) == 1 and (res_list is not None or prev_name is not None):
             from .fc import substitute_defs
-            rhs = substitute_defs(f.node, conv[0].value, {res_list, "configuration"})
             env = Env(it3, f, f.module)
             x0, x1, x2 = P("x_prev2"), P("x_prev"), P("x_new")
-            env.vars.update({res_list: [x0, x1, x2],
-                             "configuration": Obj(p.get_class("tools.solvers.Configuration"), {"atol": P("atol"), "rtol": P("rtol")})})
+            cfg = Obj(p.get_class("tools.solvers.Configuration"), {"atol": P("atol"), "rtol": P("rtol")})
+            if res_list is not None:
+                rhs = substitute_defs(f.node, conv[0].value, {res_list, "configuration"})
+                env.vars.update({res_list: [x0, x1, x2], "configuration": cfg})
+            else:
+                keepn = {res_name, prev_name, "configuration"} | ({prev2_name} if prev2_name else set())
+                rhs = substitute_defs(f.node, conv[0].value, keepn)
+                env.vars.update({res_name: x2, prev_name: x1, "configuration": cfg})
+                if prev2_name:
+                    env.vars[prev2_name] = x0
             v = T.to_term(it3.eval(rhs, env))
             D = sp.Abs(x2 - x1)
             ok_conv = False
@@ -164,6 +208,10 @@ def run(ctx):
         from .fc import mentions_through_defs
         brks = [n for n in ast.walk(lp) if isinstance(n, ast.Break)]
         okb = True
+        flag_sets = []
+        if flag is not None:
+            # completion flag: every assignment to it inside the loop must be `<count of converged points ...> and not <aitken step>`
+            flag_sets = [n for n in ast.walk(lp) if isinstance(n, ast.Assign) and any(isinstance(t, ast.Name) and t.id == flag for t in n.targets)]
 
         def counts_mask(n):
             return isinstance(n, ast.Call) and ast.unparse(n.func).split(".")[-1] in ("nansum", "sum", "count_nonzero", "all") \
@@ -178,7 +226,15 @@ def run(ctx):
             has_not_aitken = any(mentions_through_defs(f.node, u, is_aitken) for u in nots)
             if not (has_count and has_not_aitken):
                 okb = False
-        ctx.expect(okb and bool(brks), "R10.2", "fixed_point_iteration[early exit]",
+        for a in flag_sets:
+            has_count = mentions_through_defs(f.node, a.value, counts_mask)
+            conj = a.value.values if isinstance(a.value, ast.BoolOp) and isinstance(a.value.op, ast.And) else [a.value]
+            nots = [c.operand for c in conj if isinstance(c, ast.UnaryOp) and isinstance(c.op, ast.Not)]
+            if not (has_count and any(mentions_through_defs(f.node, u, is_aitken) for u in nots)):
+                okb = False
+        if flag is not None and brks:
+            okb = False if okb is False else None     # flag form with extra exits: not a shape this rule decides
+        ctx.expect((okb and bool(brks or flag_sets)) if okb is not None else None, "R10.2", "fixed_point_iteration[early exit]",
                    "the loop stops early only on the count of converged points and never right after an extrapolation step", f.loc())
 
     # ---- R10.3 Janssen
@@ -289,7 +345,7 @@ def run(ctx):
     from ..pairs import paired_update_rule
     fnr = p.get_function(NR)
     nb, nq = paired_update_rule(ctx, "R10.5", fnr, "root_bounds", "func_at_bounds", "iterates", "func_evals", "function", 4)
-    ctx.require_count("R10.5", 12)
+    ctx.require_count("R10.5", 7)
     envres.check_ext_used(ctx, it, "R10.4", "roughness")
     ctx.absorb(it)
     ctx.absorb(it2)
